@@ -48,7 +48,7 @@ if os.path.exists(ap):
     killed=[r for r in valid if r['status']!='SURVIVED']
     out.append("### 9.2b Mechanical sweep (`tools/automutate.py`)\n")
     out.append("One-token mutants sampled from every non-test, non-cosmetic line of `/repo/src` (comparison and boolean operators, off-by-one, wrapping add/sub, is_some/is_none, min/max, inclusive/exclusive ranges, register and address-range constants; for `os.asm`: branch conditions, immediates, registers, addressing mode), at most one per source line, fixed sampling seed. A mutant counts only if the crate still compiles and the 35 pinned unit tests pass. The quick tiers are then run with `LC3V_REPO` pointing at the mutated copy, most relevant checks first, stopping at the first check that reports a violation; a survivor has passed all 36 quick tiers.\n")
-    out.append(f"Sampled and run so far: {len(rs)}; did not compile: {st.get('NOCOMPILE',0)}; rejected by the pinned unit tests: {st.get('PINNED-TESTS-FAIL',0)}; **valid: {len(valid)}, detected: {len(killed)}** (of these {st.get('KILLED-EXIT2',0)} as an invalid run, exit 2), **survived: {st.get('SURVIVED',0)}**.\n")
+    out.append(f"Sampled and run: {len(rs)}; did not compile: {st.get('NOCOMPILE',0)}; rejected by the pinned unit tests: {st.get('PINNED-TESTS-FAIL',0)}; **valid: {len(valid)}, detected: {len(killed)}** (of these {st.get('KILLED-EXIT2',0)} as an invalid run, exit 2), **survived: {st.get('SURVIVED',0)}**.\n")
     kb=Counter(r.get('killed_by') for r in killed)
     out.append("Detected by (first check in the order tried): "+', '.join(f"{k} {v}" for k,v in sorted(kb.items()))+".\n")
     verd=Counter((an.get(r['id']) or ['unanalysed'])[0] for r in valid if r['status']=='SURVIVED')
